@@ -49,7 +49,11 @@ def configs(tier):
                     continue
                 add(group='comp', d=d, n=n, q=q, _cost=(6 if d == 3 else 2) ** n)
     add(group='comp', d=2, n=2, q=2, labels=2, varlabels=True, _cost=300)
+    add(group='comp', d=2, n=2, q=2, labels=4, _cost=300)
+    add(group='e2e', mode='many', d=2, n=2, q=2, labels=4, _cost=500)
+    add(group='comp', d=2, n=2, q=1, labels=5, _cost=300)
     add(group='comp', d=2, n=2, q=1, q_call=3, _cost=300)
+    add(group='comp', d=1, n=1030 if tier == 'quick' else 2100, q=1, _cost=3000)
     kmax = 3 if tier == 'quick' else 4
     for k in range(1, kmax + 1):
         for m in range(0, k + 1):
